@@ -159,6 +159,7 @@ type Exec struct {
 	panicking     *targetPanic
 	domains       map[*Term][]uint64 // finite over-approximations of single variables' feasible values
 	ipdomCache    map[*ssa.Function]map[*ssa.BasicBlock]*ssa.BasicBlock
+	par           *parState
 }
 
 func (e *Exec) unwindLimit(fn *ssa.Function) int {
@@ -627,6 +628,7 @@ func (e *Exec) runPath(fn *ssa.Function, prefix []int64) (res *PathResult) {
 	e.pooled = nil
 	e.pureDepth, e.pureFork = 0, 0
 	e.onceDone = nil
+	e.par = nil
 	e.panicking = nil
 	e.domains = map[*Term][]uint64{}
 	res = e.cur
